@@ -64,6 +64,11 @@ let ser_fmt (cf : cfg) (fmt : int) (v : jv) : n list =
 
 let handle (cf : cfg) (line : string) : string option =
   match String.split_on_char ' ' line with
+  (* CPB <b> <hex JSON text> : Model/CopyBudget.v — copy of the value with b slots available *)
+  | ["CPB"; b; h] ->
+      let o = json_run cf None (nat_of_int 50) (bytes_of_hex h) in
+      let ((pv, rem), ok) = copy_budget o.j_doc (nat_of_int (int_of_string b)) in
+      Some (Printf.sprintf "%s %s %d" (if ok then "true" else "false") (dump pv) (int_of_nat rem))
   | ["S"; fmt; d] ->
       let v = parse_dump cf d in
       let out = ser_fmt cf (int_of_string fmt) v in
